@@ -28,11 +28,12 @@ func parser(c refrv.Cfg) riscv.Parser {
 }
 
 // Work layout (case index -> job)
-//   quick:    [0, 8*128)            triple sweep: cfg x opcode(7 bits): all funct3 x funct7 x 6 fillings   (Match)
-//             next 8*N              neighbourhoods of every definition through full Parse
-//             next 8*40             short inputs, trailing bytes, random words through full Parse
-//   thorough: additionally exhaustive 2^32 sweeps for rv32ima and rv64ima (2*65536 cases of 65536 words),
-//             the subset-sensitive major opcodes for the other six configurations and sampled full Parses.
+//
+//	quick:    [0, 8*128)            triple sweep: cfg x opcode(7 bits): all funct3 x funct7 x 6 fillings   (Match)
+//	          next 8*N              neighbourhoods of every definition through full Parse
+//	          next 8*40             short inputs, trailing bytes, random words through full Parse
+//	thorough: additionally exhaustive 2^32 sweeps for rv32ima and rv64ima (2*65536 cases of 65536 words),
+//	          the subset-sensitive major opcodes for the other six configurations and sampled full Parses.
 const (
 	nTriple = 8 * 128
 	nNeigh  = 8 * 64
@@ -278,8 +279,8 @@ func run(c *mon.Case) {
 
 func main() {
 	mon.Main(mon.Spec{
-		Prop: "C02",
-		Rule: "case = (configuration, 32-bit word [, trailing bytes]); quick: for each of the 8 configurations every (opcode, funct3, funct7) triple with 6 fillings of the remaining bits, the 1- and 2-bit neighbourhoods of 4 base encodings of every definition, short inputs and random tails; thorough adds all 2^32 words for rv32ima and rv64ima and all words of the three extension-sensitive major opcodes (OP, OP-32, AMO) for the six smaller configurations; non-trivial = accepted word or word within Hamming distance 2 of an accepted encoding, distinct by (word, configuration)",
+		Prop:        "C02",
+		Rule:        "case = (configuration, 32-bit word [, trailing bytes]); quick: for each of the 8 configurations every (opcode, funct3, funct7) triple with 6 fillings of the remaining bits, the 1- and 2-bit neighbourhoods of 4 base encodings of every definition, short inputs and random tails; thorough adds all 2^32 words for rv32ima and rv64ima and all words of the three extension-sensitive major opcodes (OP, OP-32, AMO) for the six smaller configurations; non-trivial = accepted word or word within Hamming distance 2 of an accepted encoding, distinct by (word, configuration)",
 		Explanation: "oracle: an independent mask/match table written from the unprivileged specification (reserved fields of fence/fence.i/ecall/ebreak/lr zero, shamt[5]=0 on RV32, W-forms only on RV64); acceptance must coincide and the name must match case-insensitively; full Parse is tied to the matcher (name, ByteLen=4, Validate), inputs shorter than 4 bytes must be rejected and trailing bytes must not change name, text, type or effects. exhaustive=true refers to the (opcode,funct3,funct7) sweep and, in the thorough tier, the 2^32 sweeps named above.",
 		Assumptions: []string{"refrv decode table", "HINT encodings (rd=x0) are instructions; fence with fm/rs1/rd != 0 (incl. fence.tso) is not, per the statement"},
 		Cases:       cases,
